@@ -92,6 +92,45 @@ func rulesC12(c *Ctx) {
 			if !ok {
 				return
 			}
+			// a done signal carried by a cancel context: calling the CancelFunc that context.WithCancel
+			// (WithTimeout, WithDeadline) returned is idempotent and goroutine-safe by its documented contract
+			if nt, isN := types.Unalias(call.Call.Value.Type()).(*types.Named); isN && call.Call.StaticCallee() == nil && !call.Call.IsInvoke() &&
+				nt.Obj().Pkg() != nil && nt.Obj().Pkg().Path() == "context" && nt.Obj().Name() == "CancelFunc" {
+				n1++
+				fromCtor := true
+				os := Origins(call.Call.Value, FlowOpts{Alias: true})
+				for _, o := range os {
+					if o.Kind == "field" {
+						// every store into that field comes from a context constructor
+						for _, g := range fns {
+							eachInstr(g, func(_ *ssa.BasicBlock, _ int, in2 ssa.Instruction) {
+								st, isSt := in2.(*ssa.Store)
+								if !isSt {
+									return
+								}
+								fa, isFA := st.Addr.(*ssa.FieldAddr)
+								if !isFA || fieldName(fa) != o.Name {
+									return
+								}
+								ex, isEx := resolve(st.Val).(*ssa.Extract)
+								if !isEx {
+									fromCtor = false
+									return
+								}
+								cc, isC := ex.Tuple.(*ssa.Call)
+								if !isC || cc.Call.StaticCallee() == nil || cc.Call.StaticCallee().Pkg == nil || cc.Call.StaticCallee().Pkg.Pkg.Path() != "context" {
+									fromCtor = false
+								}
+							})
+						}
+					} else if !(o.Kind == "call" && strings.HasPrefix(o.Name, "context.With")) {
+						fromCtor = false
+					}
+				}
+				c.Check(fromCtor && len(os) > 0, "R1", "cancel() of the done context in "+fname(f), call.Pos(), "the CancelFunc of a context.WithCancel: idempotent and goroutine-safe by contract",
+					"the cancel function that signals done does not (only) come from a context constructor; cannot certify that signalling twice is safe")
+				return
+			}
 			bi, ok := call.Call.Value.(*ssa.Builtin)
 			if !ok || bi.Name() != "close" {
 				return
